@@ -30,9 +30,9 @@ type linOut struct {
 }
 
 const (
-	kRead      = 100
-	kReadMiss  = 101
-	kReadQuiet = 102 // the final GetEntryQuietly: a read that resets nothing
+	kRead       = 100
+	kReadMiss   = 101
+	kReadQuiet  = 102 // the final GetEntryQuietly: a read that resets nothing
 	kMaybeTouch = 103 // access-reset expiry: the first phase of a ComputeIfPresent is a read of its own (it may reset the deadline of the entry it finds, whatever the second phase finds later)
 )
 
@@ -125,18 +125,18 @@ var linModel = porcupine.Model{
 
 // LinResult summarises the linearizability check of a trial.
 type LinResult struct {
-	Keys       int
-	Ok         int
-	Illegal    int
-	Unknown    int
-	MaxOverlap int
-	Ops        int
-	Evicts     int
-	Installs   int
-	WaiterBounded int // installs whose end is bounded by the return of a waiter that received the value
-	AmbiguousClock int // operations during which the manual clock moved
-	Expirations    int // removals reported with cause Expiration
-	Witness    string // first illegal key's operations
+	Keys              int
+	Ok                int
+	Illegal           int
+	Unknown           int
+	MaxOverlap        int
+	Ops               int
+	Evicts            int
+	Installs          int
+	WaiterBounded     int    // installs whose end is bounded by the return of a waiter that received the value
+	AmbiguousClock    int    // operations during which the manual clock moved
+	Expirations       int    // removals reported with cause Expiration
+	Witness           string // first illegal key's operations
 	CallbackViolation string
 }
 
